@@ -579,6 +579,10 @@ def b_isinstance(it, x, cls):
         elif isinstance(c, BuiltinV) and c.name in ("float", "int"):
             if is_z3(x) and z3.is_arith(x) or isinstance(x, (int, float)):
                 return True
+        elif isinstance(c, BuiltinV) and c.name in ("dict", "list", "tuple", "str", "set", "frozenset", "bool"):
+            ty = {"dict": dict, "list": list, "tuple": tuple, "str": str, "set": (set,), "frozenset": frozenset, "bool": bool}[c.name]
+            if isinstance(x, ty):
+                return True
     return False
 
 
@@ -772,6 +776,10 @@ def np_empty(it, shape, dtype=None, order=None):
 
 
 def np_full(it, shape, fill_value, dtype=None):
+    if isinstance(fill_value, float) and fill_value != fill_value:
+        # an array of NaN: cells of unspecified content (REAL mode has no NaN; a clause must not depend on such a cell)
+        it.assumptions_log.add("np.full(shape, nan): cells of unspecified content (clauses are stated only where the cell is overwritten)")
+        return np_empty(it, shape)
     a = _filled(it, shape, fill_value)
     if isinstance(fill_value, bool) and isinstance(a, LArr):
         a.dtype = "bool"
